@@ -203,8 +203,14 @@ func runC14(r *Run) {
 			_, hit := reach(entryOf(h), isHit, cut, nil)
 			r.check(len(cut) > 0 && hit == nil, "hit-gate:"+name, r.pos(hits[0]), "hit unreachable with the "+name+" edge removed", why)
 		}
-		getc := callsMatching(h, false, nameHasSuffix("cache.manager).get"))
-		r.need(len(getc) == 1, "one manager.get")
+		var getc []callSite
+		for _, gc := range callsMatching(h, false, nameHasSuffix("cache.manager).get")) {
+			// the lookup that the hit depends on: the hit is reachable from it
+			if _, reachable := reach(pointAfter(gc.Instr), isHit, nil, nil); reachable != nil {
+				getc = append(getc, gc)
+			}
+		}
+		r.need(len(getc) == 1, "one manager.get in front of the hit")
 		cut := map[edge]bool{}
 		for _, br := range ifsOnValue(h, getc[0].Value()) {
 			if s, ok := br.nilSlot(false); ok {
@@ -499,6 +505,47 @@ func runC14(r *Run) {
 
 	r.rule("R8", "function-valued Config fields the middleware calls are never nil (E1): set by configDefault on every path, also when no config is passed", func() {
 		configFuncFieldsRule(r, cachePkg, "cache")
+	})
+
+	r.rule("R9", "a store replaces, it does not add: on the way to heap.put the key is looked up again, and a live entry gives its heap slot and bytes back first (E1/E10)", func() {
+		_, h := cacheHandler(r)
+		puts := callsMatching(h, false, nameHasSuffix("cache.indexedHeap).put"))
+		r.need(len(puts) == 1, "one heap.put")
+		isPut := func(in ssa.Instruction) bool { return in == puts[0].Instr }
+		// lookups after the handler ran: put is reachable from them without running c.Next()
+		var look []callSite
+		for _, gc := range callsMatching(h, false, nameHasSuffix("cache.manager).get")) {
+			if _, hit := reach(pointAfter(gc.Instr), isPut, nil, func(in ssa.Instruction) bool { return isCallTo(in, isNext) }); hit != nil {
+				look = append(look, gc)
+			}
+		}
+		if len(look) == 0 {
+			r.bad("store:replaces-existing-entry", r.pos(puts[0].Instr), "the key is not looked up again before heap.put: an entry that is still cached (a no-cache refresh, a concurrent miss that stored first) keeps its heap slot, its bytes are counted twice and the orphan's eviction later deletes the live entry")
+			return
+		}
+		okAll := true
+		for _, g := range look {
+			// edges on which no live entry exists
+			cut := map[edge]bool{}
+			for _, br := range ifsOnValue(h, g.Value()) {
+				if sl, ok := br.nilSlot(true); ok {
+					cut[edge{br.If.Block(), sl}] = true
+				}
+			}
+			for _, br := range branchesIn(h) {
+				if loadOfField(br.Info.Root, "cache.item.exp") && dependsOn(br.Info.Root, func(v ssa.Value) bool { return v == g.Value() }) != nil {
+					if sl, ok := br.eqIntSlot(0, true); ok {
+						cut[edge{br.If.Block(), sl}] = true
+					}
+				}
+			}
+			isRemove := func(in ssa.Instruction) bool { return isCallTo(in, nameHasSuffix("cache.indexedHeap).remove")) }
+			if _, hit := reach(pointAfter(g.Instr), isPut, cut, isRemove); hit != nil || len(cut) == 0 {
+				okAll = false
+			}
+		}
+		r.check(okAll, "store:replaces-existing-entry", r.pos(puts[0].Instr), "with a live entry present every path to heap.put first removes its heap slot",
+			"a live entry of the key keeps its heap slot when the key is stored again: its bytes are counted twice and the orphan's eviction later deletes the live entry")
 	})
 }
 
